@@ -30,8 +30,8 @@ QUICK_OPS = {
     "MT": BASIC + ["edit_em_metadata"],
 }
 # quick structure depth: one pair per copy implementation goes to depth 4 (plain EM: ATEM, large loop: LLFEM,
-# tipper override: TIP, DC, MT), the others to depth 3
-QS_DEPTH = {"ATEM": 4, "AFEM": 3, "MLTEM": 3, "MLFEM": 3, "LLTEM": 3, "LLFEM": 4, "TIP": 4, "TIP1": 3, "DC": 5, "MT": 5}
+# DC, MT), the others to depth 3
+QS_DEPTH = {"ATEM": 4, "AFEM": 3, "MLTEM": 3, "MLFEM": 3, "LLTEM": 3, "LLFEM": 4, "TIP": 3, "TIP1": 3, "DC": 5, "MT": 5}
 
 INV = """VIEW vw
 INVARIANT Mutual
